@@ -421,7 +421,10 @@ TProj ==
   \* the projection after a reload equals the one taken before it
   /\ (R.after_reload /\ <<R.node, R.chan>> \in DOMAIN projB) =>
         LET b == projB[<<R.node, R.chan>>] IN
-        G12(b.out_cap = R.out_cap /\ b.in_cap = R.in_cap /\ b.n_in = R.n_in /\ b.n_out = R.n_out /\ b.ready = R.ready)
+        G12(b.out_cap = R.out_cap /\ b.in_cap = R.in_cap /\ b.n_in = R.n_in /\ b.n_out = R.n_out /\ b.ready = R.ready
+            \* ... and everything else a user can read about the channel: type, ids and aliases, reserves, limits, the
+            \* peer's forwarding terms, the user's configuration, feerate, shutdown state (one interned value)
+            /\ b.static = R.static)
 
 \* ---- the user claims / gives up a payment it was shown.  A node re-read from what it wrote reacts to the call like
 \* the original (C12): a payment shown as claimable before a clean reload, and claimed below its advertised
@@ -468,12 +471,21 @@ TBcastUpdate ==
                                  IF k = <<R.node, R.chan>> THEN [GsOf(k) EXCEPT !.ann = R.enabled] ELSE @[k]]]
 
 TOther ==
-  /\ l <= Len(Rec) /\ Rec[l].ev \in {"forward", "intercept_fwd", "intercept_fail", "signer", "fee", "block", "persist_mode", "restarted", "close", "open_extra", "pause_flush", "flush", "hold_events", "settle_chain", "mine_skipped", "sweeper_track_failed"}
+  /\ l <= Len(Rec) /\ Rec[l].ev \in {"forward", "intercept_fwd", "intercept_fail", "signer", "fee", "block", "persist_mode", "restarted", "close", "open_extra", "pause_flush", "flush", "hold_events", "settle_chain", "mine_skipped", "sweeper_track_failed", "config"}
   /\ l' = l + 1 /\ UNCHANGED <<cvars, nodeOf, saved, everRAA, projB>>
   \* (time passing, fee changes, a slow signer, ... : whatever was promised about a quiet channel is off)
   \* (the `fee` operation makes the node's timer tick once more without a `tick` record: the tick counts start again)
   /\ fw' = IF Rec[l].ev \in {"forward", "persist_mode", "restarted", "pause_flush", "flush", "sweeper_track_failed"} THEN fw
             ELSE IF Rec[l].ev = "fee" THEN [fw EXCEPT !.mustAcc = {}, !.gs = [k \in DOMAIN @ |-> [@[k] EXCEPT !.streak = 0]]]
+            \* (the user changes its forwarding policy: for a while HTLCs paying the old or the new terms are forwarded --
+            \*  the node is held to the weaker of the two from here on)
+            ELSE IF Rec[l].ev = "config"
+                 THEN [fw EXCEPT !.mustAcc = {},
+                                 !.pol = [k \in DOMAIN @ |-> IF k = Rec[l].node + 1 /\ Rec[l].ok
+                                                              THEN [cltv_delta |-> IF Rec[l].cltv_delta < @[k].cltv_delta THEN Rec[l].cltv_delta ELSE @[k].cltv_delta,
+                                                                    fee_base |-> IF Rec[l].fee_base < @[k].fee_base THEN Rec[l].fee_base ELSE @[k].fee_base,
+                                                                    fee_ppm |-> IF Rec[l].fee_ppm < @[k].fee_ppm THEN Rec[l].fee_ppm ELSE @[k].fee_ppm]
+                                                              ELSE @[k]]]
             ELSE [fw EXCEPT !.mustAcc = {}]
 
 \* ---- a channel opened while the run is in progress (C09: nothing that depends on the initial
